@@ -306,7 +306,8 @@ def _model_arg(k, c, outs):
     if fn == "rank":
         if c["nbins"] is None:
             return ("entry_rank", [c["a"]])
-        if _bad(outs[k]):
+        if _bad(outs[k]) or not outs[k]["orders"]:
+            # nothing recorded (loop not entered, or the code no longer calls np.argsort): stable oracle
             return ("entry_rank_bins_stable", [c["a"], c["nbins"]])
         return ("entry_rank_bins", [c["a"], c["nbins"], outs[k]["orders"]])
     if fn == "median":
@@ -344,6 +345,10 @@ def compare(case, out, m):
     if isinstance(m, dict):
         return "model error: %s" % (m,)
     exp = _impl_sx(case, out)
+    if case["fn"] == "rank" and case["nbins"] is not None and not out["orders"] and m != exp:
+        # the merging loop ran but no np.argsort call was observed: the tie order of the implementation's sort is
+        # unknown, so this case is judged by the verified checker only (never a false alarm on a refactoring)
+        return None
     if case["fn"] == "rank" and case["nbins"] is not None and m == []:
         return ("model rejected a recorded np.argsort(hist) (not a sorting permutation of the model's histogram) or ran "
                 "out of fuel; orders %s hists %s" % (str(out["orders"])[:200], str(out["hists"])[:200]))
